@@ -22,8 +22,8 @@ CHECKS = {
             "Decides that no writer/lookup Result in the CLI is discarded and main returns Result (errors exit non-zero), that the CLI's panic sites are discharged or reviewed, and flags data-derived XML element names (recorded known finding).",
             TB + "Well-formedness/faithfulness of the emitted JSON/XML/BSON text and exit statuses are serialiser/run-time behaviour and not decided.", "DESIGN 4 C19"),
     "C20": ("panic-site ledger and loop classification over the id-tests crate, bounded-recursion rule on the typed HIR",
-            "Enumerates every panic site of the naming checker from MIR; each is discharged, reviewed with anchors, or (the two explicit panics on <digits>-<text> names, probe-confirmed) a recorded known finding; loops are iterator-driven and the single recursion is bounded by is_mod_name.",
-            TB + "The accept-iff-expected-id clause is value-level and not decided.", "DESIGN 4 C20"),
+            "Enumerates every panic site of the naming checker from MIR; each is discharged, reviewed with anchors, or (the two explicit panics on <digits>-<text> names, probe-confirmed) a recorded known finding; loops are iterator-driven and the single recursion is bounded by is_mod_name. The set of decisions that read the proposed id is fixed to the three reviewed ones (equality with the computed expected id twice, the generator-implied lower-case precondition).",
+            TB + "That the generator computes the intended id for every name is value-level and not decided.", "DESIGN 4 C20"),
     "C15": ("typed-HIR field-mapping extraction over every CommonResponse/CommonPlayer impl enumerated from the trait-impl index, compared with a same-name-or-reviewed-synonym rule; default as_json wiring",
             "For all impls (enumerated, so a new impl is checked automatically) every accessor must return the same-named (or reviewed synonym) field of its own type, as_json must wire each JSON field to the same-named accessor, as_original must wrap self.",
             TB + "Value equality at run time and serde's rendering are not decided.", "DESIGN 4 C15"),
